@@ -33,4 +33,6 @@ mod c04;
 #[cfg(kani)]
 mod c05;
 #[cfg(kani)]
+mod c19;
+#[cfg(kani)]
 mod cost_table;
